@@ -531,3 +531,66 @@ def _to_user_modules_job() -> Record:
 
 
 register(Job("c17:torch_nn_modules_to_user_modules", ["C17", "C09"], TU + "torch_nn_modules_to_user_modules", {}, _to_user_modules_job))
+
+
+def _init_job(which: str) -> Callable[[], Record]:
+    """_unit_init_weights / _zero_init_biases: only Linear / Embedding parameters of the module
+    they are given are written; weights become w / std(w), biases b - b"""
+
+    def run() -> Record:
+        from pyvc import nnmodel
+        from pyvc.harness import lc_equal_goal
+        from pyvc.tensor import LinComb
+
+        qual = US + which
+        tag = f"C17:transforms._unit_scale.{which}"
+
+        def build(ctx: Ctx) -> Any:
+            it = mk_interp(ctx, verifying=[qual], hook=[nnmodel.hook, _hook_factory([])])
+            nn_mod = it.get_module("torch.nn")
+            Lin, Emb, Mod = it.getattr(nn_mod, "Linear"), it.getattr(nn_mod, "Embedding"), it.getattr(nn_mod, "Module")
+
+            def mk(cls: Any, **attrs: Any) -> ObjVal:
+                o = ObjVal(cls)
+                o.attrs.update(attrs)
+                return o
+
+            def prm(name: str) -> SymTensor:
+                t = leaf(ctx, name, Shape([Run(ctx, name + "_shape")]))
+                t.is_parameter = True
+                return t
+
+            lin = mk(Lin, weight=prm("lin_w"), bias=prm("lin_b"))
+            lin_nb = mk(Lin, weight=prm("lin2_w"), bias=None)
+            emb = mk(Emb, weight=prm("emb_w"))
+            other = mk(Mod, weight=prm("norm_w"), bias=prm("norm_b"))
+            root = mk(Mod, a=lin, b=mk(Mod, inner=lin_nb, e=emb), c=other)
+            outsider = prm("not_in_module")
+            snap = {id(t): str(t.val) for t in (lin.attrs["weight"], lin.attrs["bias"], lin_nb.attrs["weight"], emb.attrs["weight"], other.attrs["weight"], other.attrs["bias"], outsider)}
+            return it, lambda: (it.call(lookup_fn(it, qual), [root], {}), lin, lin_nb, emb, other, outsider, snap)
+
+        def post(p: PathResult, i: int) -> Any:
+            ctx = p.ctx
+            if p.outcome != "return":
+                ctx.oblige(f"{tag}:no_exception", False, exc=str(p.exc))
+                return None
+            _, lin, lin_nb, emb, other, outsider, snap = p.value
+            written = {e[1].id for e in ctx.effects if e[0] == "inplace"}
+            allowed = {lin.attrs["weight"].storage.id, lin_nb.attrs["weight"].storage.id, emb.attrs["weight"].storage.id} if which == "_unit_init_weights" else {lin.attrs["bias"].storage.id}
+            ctx.oblige(f"{tag}:writes_exactly_the_linear_and_embedding_{'weights' if which == '_unit_init_weights' else 'biases'}_of_its_argument", written == allowed, written=len(written), expected=len(allowed))
+            ctx.oblige(f"{tag}:other_modules_and_outside_tensors_untouched", all(str(t.val) == snap[id(t)] for t in (other.attrs["weight"], other.attrs["bias"], outsider)))
+            if which == "_zero_init_biases":
+                ctx.oblige(f"{tag}:bias_becomes_zero", len(lin.attrs["bias"].val.terms) == 0, val=str(lin.attrs["bias"].val))
+            else:
+                w = lin.attrs["weight"]
+                ok = len(w.val.terms) == 1 and "op!div" in str(w.val.terms[0][0]) and "op!std" in str(w.val.terms[0][0])
+                ctx.oblige(f"{tag}:weight_becomes_weight_over_its_std", ok, val=str(w.val)[:160])
+            return None
+
+        return run_config(qual, {}, build, post)
+
+    return run
+
+
+for _w in ("_unit_init_weights", "_zero_init_biases"):
+    register(Job(f"c17:{_w}", ["C17"], US + _w, {}, _init_job(_w)))
